@@ -424,6 +424,15 @@ impl<'a, L: chain::Listen + ?Sized> ChainNotifier<'a, L> {
 		loop {
 			// Found the common ancestor.
 			if current.block_hash == previous.block_hash {
+				// Both walks arrived at the same block, so the height and chainwork that the block
+				// source supplied along the way to `current_header` must agree with those known for
+				// the previous chain.
+				if current.height != previous.height {
+					return Err(BlockSourceError::persistent("invalid block height"));
+				}
+				if current.chainwork != previous.chainwork {
+					return Err(BlockSourceError::persistent("invalid chainwork"));
+				}
 				break;
 			}
 
@@ -450,7 +459,17 @@ impl<'a, L: chain::Listen + ?Sized> ChainNotifier<'a, L> {
 		&self, chain_poller: &mut P, header: &ValidatedBlockHeader,
 	) -> BlockSourceResult<ValidatedBlockHeader> {
 		match self.header_cache.look_up(&header.header.prev_blockhash) {
-			Some(prev_header) => Ok(*prev_header),
+			Some(prev_header) => {
+				// Apply the same height and chainwork checks that `Poll::look_up_previous_header`
+				// applies to headers fetched from a block source.
+				if header.height != prev_header.height + 1 {
+					return Err(BlockSourceError::persistent("invalid block height"));
+				}
+				if header.chainwork != prev_header.chainwork + header.header.work() {
+					return Err(BlockSourceError::persistent("invalid chainwork"));
+				}
+				Ok(*prev_header)
+			},
 			None => chain_poller.look_up_previous_header(header).await,
 		}
 	}
